@@ -47,6 +47,7 @@ IDIOMS = {
     "non-optional-is-not-None": "`e is None` / `e is not None` on a value whose spec type is not Optional is false / true",
     "raise-class-only": "raise E(args) is Err \"E\": messages (f-strings) are not translated or evaluated",
     "cast-identity": "typing.cast(T, e) is e",
+    "reraise-stored-exception": "`raise x` of a local listed in the spec's raise_locals is Err \"x\": WHICH stored exception object is re-raised is not linked (only that the function raises there)",
     "super-init-noop": "super().__init__() of the abstract base classes does nothing",
     "isinstance-by-spec": "isinstance(x, C) is the test the spec names for (type of x, C) — it depends on the data representation chosen in the spec",
     "attr-by-spec": "attribute reads are the record projections / functions the spec names (data representation)",
@@ -58,7 +59,7 @@ IDIOMS = {
     "fragment-as-function": "spec 'fragment': a prefix of the statements of one block of a function (addressed by a path of loop statements, optionally starting behind the unique statement of a given type; ending before the first statement that contains break/continue/return, or after a given number of statements) is translated as a function of the enclosing locals listed as parameters, returning the listed output locals; every other local it assigns must be declared a temp and is checked not to be read outside the fragment. That the block runs where the model says is NOT covered by the link",
     "isinstance-narrowing-by-match": "`if isinstance(x, C): A else: B` on a local name x whose (type, C) the spec lists under isinstance_narrow is `match <view x> with Some p => A | None => B end`: the view (spec, data representation) answers Some payload exactly when x is an instance of C, and A reads x as that payload (attributes through the attribute table of the payload type) until x is reassigned",
     "local-object-setattr": "`x.a = e` on a local object x that the function entry lists under local_objects (created in this function by a spec-mapped constructor call, never aliased) is the rebinding x := <setattrs[(type of x, a)]> x e; an attribute that the spec does not list is rejected",
-    "mutating-call-by-spec": "an expression statement `f(.., x, ..)` with f under the spec's mutating_calls is the rebinding of the local name x (the argument the spec names as mutated) to the template's value; the other arguments are read only. Aliasing of x is not modelled",
+    "rebinding-call-by-spec": "an expression statement `f(.., x, ..)` with f under the spec's rebinding_calls is the rebinding of the local name x (the argument the spec names as mutated) to the template's value; the other arguments are read only. Aliasing of x is not modelled",
     "str-dict-literal-by-spec": "a dict literal whose keys are pairwise different string constants is the constructor the spec names under str_dict_literal (e.g. the model's Python-dict value with the members in source order); the values are evaluated left to right",
     "frozen-setattr": "`object.__setattr__(self, \"a\", e)` in the constructor (__post_init__) of a frozen dataclass is `self.a = e` on a state field (the frozen class only blocks the plain assignment syntax)",
     "while-as-fuel": "`while c: body` is the fuel-bounded recursion py_while fuel (fun st => c) (fun st => body) st over the tuple st of the locals the body assigns (and the stream): the test is evaluated first; if it holds and the fuel is used up the result is Err \"OutOfFuel\" (NOT a Python exception: non-termination within the fuel is outside the link), else one unit of fuel per iteration. The fuel is an explicit extra parameter (nat) the spec names (`while_fuel`); it is handed unchanged to translated callees that need one. `break`/`continue`/`else` in a while are rejected",
@@ -163,6 +164,7 @@ class FunctionTranslator:
         if self.stream and not self.state:
             self.state = dict(var=self.stream["var"], ty=self.stream["ty"], ctor="", fields=[])
         self.fuel = fspec.get("while_fuel")  # while-as-fuel: Gallina name of the explicit fuel parameter
+        self.heap = fspec.get("heap_lists")  # list-as-heap-cell: dict(ref=Ty, elem=Ty, locals=[names], attrs=[attribute names], alloc/get/append=templates)
         self.stvar = self.state["var"] if self.state else None
         self.kind = fspec.get("kind", "method")
         self.used_names: set[str] = set()
@@ -394,6 +396,7 @@ class FunctionTranslator:
                 self.bad(node, f"bad keyword argument {k!r}")
             actual[k] = a
         pieces = [f.gen]
+        evald_t = {k_: self.expr(a_, env) for k_, a_ in actual.items()}  # source order, as Python evaluates them
         for (gname, ty, origin) in f.gparams:
             if origin == "extra":
                 mine = [g for g in self.gparams if g[0] == gname and g[1] == ty]
@@ -419,7 +422,7 @@ class FunctionTranslator:
             else:
                 if origin not in actual:
                     self.bad(node, f"argument {origin!r} of {f.py} missing (defaults are not translated)")
-                pieces.append(paren(self.coerce(self.expr(actual[origin], env), ty, node).code))
+                pieces.append(paren(self.coerce(evald_t[origin], ty, node).code))
         code = " ".join(pieces)
         if f.stateful:
             r = self.fresh("r")
@@ -883,6 +886,8 @@ class FunctionTranslator:
             return f"map (fun {pat} => {ecode}) {src}", ety, False
 
         first_iter = self.expr(gens[0].iter, env)  # the outermost iterable is evaluated eagerly (may bind)
+        if self.heap_is_ref(first_iter):
+            first_iter = self.heap_read(first_iter)  # list-as-heap-cell: the items of the cell, read once
         it_ent = self.spec.get("iter", {}).get(first_iter.ty.name if first_iter.ty.kind == "nom" else repr(first_iter.ty))
         if it_ent:
             # additive: iterating a value of a spec type: iter = {type: (template, item Ty, partial)} gives the list of its items (may raise)
@@ -912,6 +917,8 @@ class FunctionTranslator:
 
     def stream_calls(self, stmts) -> bool:
         """syntactic over-approximation: do the statements contain a call that consumes the decision stream?"""
+        if getattr(self, "heap", None) and self.heap_mentions(stmts):
+            return True  # list-as-heap-cell: the heap is part of the threaded state
         for st in stmts:
             for n in ast.walk(st):
                 if not isinstance(n, ast.Call):
@@ -958,6 +965,72 @@ class FunctionTranslator:
             vt = want.args[1]
         d = Dict(kt, vt)
         return Val(f"(fold_left (fun d_ kv_ => py_dict_set {self.eqb(kt, node)} d_ (fst kv_) (snd kv_)) {paren(pairs.code)} ({'[] : ' + g_type(d)}))", d)
+
+    # -- list-as-heap-cell (function entry `heap_lists`)
+    HEAP_MUTATORS = ("append", "extend", "insert", "remove", "pop", "clear", "sort", "reverse")
+
+    def heap_is_ref(self, v) -> bool:
+        return bool(getattr(self, "heap", None)) and v.ty == self.heap["ref"]
+
+    def heap_op(self, template, *args):
+        """a state-changing heap operation: applied to the threaded state like a stateful spec call; -> code of its value"""
+        if not self.stvar:
+            self.bad(self.fnode, "heap_lists needs a threaded state (`stream` / `state`) in the function entry")
+        self.need_monad()
+        self.idiom("list-as-heap-cell")
+        r = self.fresh("r")
+        self.binds.append(f"do {r} <- {template.format(*args)} {self.stvar};")
+        self.binds.append(f"let {self.stvar} := snd {r} in")
+        return f"(fst {r})"
+
+    def heap_read(self, ref: Val) -> Val:
+        """the content of the cell behind `ref`, as it is now (a value: later updates of the cell are not seen)"""
+        self.need_monad()
+        self.idiom("list-as-heap-cell")
+        c = self.fresh("cell")
+        self.binds.append(f"do {c} <- {self.heap['get'].format(paren(ref.code))} {self.stvar};")
+        return Val(c, List(self.heap["elem"]))
+
+    def heap_rhs(self, value, env, node) -> Val:
+        """right-hand side of an assignment to a listed heap local -> a reference: fresh cell for a literal / list(...), pointer copy for a reference"""
+        elem = self.heap["elem"]
+        if isinstance(value, ast.List) or (isinstance(value, ast.Call) and isinstance(value.func, ast.Name) and value.func.id == "list" and "list" not in env.vars
+                                           and not value.keywords and len(value.args) <= 1 and not any(isinstance(a_, ast.Starred) for a_ in value.args)):
+            if isinstance(value, ast.List) or not value.args:
+                c = self.coerce(self.expr(value, env) if isinstance(value, ast.List) else Val("[]", List(NONE)), List(elem), node)
+            else:
+                inner = self.expr(value.args[0], env)
+                c = self.heap_read(inner) if self.heap_is_ref(inner) else self.coerce(self.seq_arg(value.args[0], env, node), List(elem), node)
+            return Val(self.heap_op(self.heap["alloc"], paren(c.code)), self.heap["ref"])
+        v = self.expr(value, env)
+        if self.heap_is_ref(v):
+            self.idiom("list-as-heap-cell")
+            return v  # pointer copy: both names denote the same cell
+        self.bad(node, f"a heap-list local can only be assigned a fresh list ([..] / list(..)) or a reference; have {v.ty}")
+
+    def heap_mutates(self, stmts, env) -> bool:
+        """syntactic over-approximation: could the statements update a heap cell in place? (a mutating method on a name that is or could be a reference, or on an attribute)"""
+        for st in stmts:
+            for n in ast.walk(st):
+                if isinstance(n, ast.Call) and isinstance(n.func, ast.Attribute) and n.func.attr in self.HEAP_MUTATORS:
+                    rv = n.func.value
+                    if isinstance(rv, ast.Attribute):
+                        return True
+                    if isinstance(rv, ast.Name) and (rv.id in self.heap.get("locals", ()) or rv.id not in env.vars or self.heap_is_ref(env.vars[rv.id]) or env.vars[rv.id].ty.kind == "option"):
+                        return True
+        return False
+
+    def heap_mentions(self, stmts) -> bool:
+        """syntactic over-approximation of `the statements read or change the heap`: a listed local / attribute, or a mutating method on a name / attribute"""
+        for st in stmts:
+            for n in ast.walk(st):
+                if isinstance(n, ast.Name) and n.id in self.heap.get("locals", ()):
+                    return True
+                if isinstance(n, ast.Attribute) and n.attr in self.heap.get("attrs", ()):
+                    return True
+                if isinstance(n, ast.Call) and isinstance(n.func, ast.Attribute) and n.func.attr in self.HEAP_MUTATORS and isinstance(n.func.value, (ast.Name, ast.Attribute)):
+                    return True
+        return False
 
     # -- calls
     def e_Call(self, node, env):
@@ -1016,13 +1089,15 @@ class FunctionTranslator:
                 self.bad(node, f"bad keyword argument {k!r}")
             actual[k] = a
         vals = {}
+        # Python evaluates call arguments in SOURCE order (positional, then keywords as written), not in parameter order
+        evald = {k_: self.expr(a_, env) for k_, a_ in actual.items()}
         for (p, ty) in params:
             if p not in actual and p in ent.get("optional", {}):
                 vals[p] = ent["optional"][p]  # additive: the Python default of a mapped callee, spelled out by the spec
                 continue
             if p not in actual:
                 self.bad(node, f"argument {p!r} missing (defaults are not translated)")
-            vals[p] = paren(self.coerce(self.expr(actual[p], env), ty, node).code)
+            vals[p] = paren(self.coerce(evald[p], ty, node).code)
         if self.fs.get("nonlocal_state"):
             # nonlocal-as-state: a template may read the current value of a closed-over local as {nl_<python name>}
             for (n_, _, _) in self.fs["nonlocal_state"]["fields"]:
@@ -1045,6 +1120,17 @@ class FunctionTranslator:
     def method_call(self, recv: Val, name, args, kwargs, node, env) -> Val:
         tname = recv.ty.name if recv.ty.kind == "nom" else repr(recv.ty)
         ent = self.spec.get("methods", {}).get((tname, name))
+        if ent and ent.get("overloads"):
+            # additive (C10): a mapped method used at several argument types (random.choices on individuals / on a range; executor.submit of
+            # different callables): the FIRST alternative whose arguments type-check is used; none -> rejected
+            saved_ = (len(self.binds), self.fresh_n, list(self.idioms))
+            for alt in ent["overloads"]:
+                try:
+                    return self.call_spec(alt, recv, args, kwargs, node, env)
+                except Untranslatable:
+                    del self.binds[saved_[0]:]
+                    self.fresh_n, self.idioms = saved_[1], list(saved_[2])
+            self.bad(node, f"method {name!r} on {tname}: the arguments match none of the spec's overloads")
         if ent:
             return self.call_spec(ent, recv, args, kwargs, node, env)
         t = self.mod.translated.get(f"{tname}.{name}")
@@ -1280,7 +1366,7 @@ def terminates(stmts) -> bool:
     if not stmts:
         return False
     s = stmts[-1]
-    if isinstance(s, (ast.Return, ast.Raise, ast.Break)):
+    if isinstance(s, (ast.Return, ast.Raise, ast.Break, ast.Continue)):  # Continue: additive (C10), see s_Continue
         return True
     if isinstance(s, ast.If):
         return bool(s.orelse) and terminates(s.body) and terminates(s.orelse)
@@ -1365,6 +1451,7 @@ class K:
     wrap: object  # payload code -> code at this point (Ok p / p / Ret p / Ok (Ret p))
     fall: object  # env -> code: what happens when the block ends normally
     brk: object = None  # env -> code: `break`
+    cont: object = None  # env -> code: `continue` (additive, C10: set by s_For; the next iteration starts from the current loop state)
 
 
 class StatementsMixin:
@@ -1404,6 +1491,14 @@ class StatementsMixin:
             e = e.func
         if not isinstance(e, ast.Name) or s.cause is not None:
             self.bad(s, "raise of something else than E(...) / E")
+        if not isinstance(s.exc, ast.Call) and (e.id in env.vars or ekey(e) in env.narrow):
+            # `raise x` of a VALUE held in a local: which exception object that is cannot be read off the syntax
+            if e.id not in self.fs.get("raise_locals", ()):
+                self.bad(s, f"raise of the local variable {e.id!r}: declare it under 'raise_locals' in the spec (the raised object is then NOT linked)")
+            self.need_monad()
+            self.idiom("reraise-stored-exception")
+            self.effects += 1
+            return f'Err "{e.id}"%string'
         self.need_monad()
         self.idiom("raise-class-only")
         self.effects += 1
@@ -1415,6 +1510,27 @@ class StatementsMixin:
         if k.brk is None:
             self.bad(s, "break outside a translatable loop shape")
         return k.brk(env)
+
+    def s_Delete(self, s, rest, env, k):
+        """additive (C10): `del x` of local names: the names are dropped (a later read is rejected as an unknown name)"""
+        env2 = env.copy()
+        if not any(s is top for top in self.fnode.body):
+            self.bad(s, "del nested in another statement")
+        for t in s.targets:
+            if not isinstance(t, ast.Name) or t.id not in env.vars or t.id in [p_[0] for p_ in self.fs.get("params", [])]:
+                self.bad(s, "del of something else than a local name")
+            env2.vars.pop(t.id)
+            env2.narrow.pop(ekey(ast.Name(t.id, ast.Load())), None)
+        return self.block(rest, env2, k)
+
+    def s_Continue(self, s, rest, env, k):
+        """additive (C10): `continue` in a `for` loop of one of the translated shapes ends this execution of the body like
+        falling off its end (the loop goes on from the current loop state); rejected in `while` loops and anywhere else"""
+        if rest:
+            self.bad(rest[0], "statement after continue")
+        if getattr(k, "cont", None) is None:
+            self.bad(s, "continue outside a translatable for-loop shape")
+        return k.cont(env)
 
     def s_FunctionDef(self, s, rest, env, k):
         if f"{self.fs['py']}.{s.name}" in self.mod.translated:
@@ -1501,10 +1617,10 @@ class StatementsMixin:
                     self.init_fields[a] = Val(g, field_[0][2])
                     return [f"let {g} := {v2.code} in"], env2
                 return self.simple(go_set, rest, env, k)
-        mc = self.spec.get("mutating_calls", {}).get(self.dotted(v.func)) if isinstance(v, ast.Call) and self.dotted(v.func) else None
+        mc = self.spec.get("rebinding_calls", {}).get(self.dotted(v.func)) if isinstance(v, ast.Call) and self.dotted(v.func) else None
         if mc:
-            # additive (mutating-call-by-spec): f(.., x, ..) as a statement, listed in the spec as
-            # mutating_calls[f] = dict(params=[(name, Ty)], target=<param whose argument is mutated>, code=<template: the new value of that argument>);
+            # additive (rebinding-call-by-spec): f(.., x, ..) as a statement, listed in the spec as
+            # rebinding_calls[f] = dict(params=[(name, Ty)], target=<param whose argument is mutated>, code=<template: the new value of that argument>);
             # the argument must be a local name: it is rebound to the new value
             def go_mut():
                 names = [p for p, _ in mc["params"]]
@@ -1514,12 +1630,12 @@ class StatementsMixin:
                         self.bad(s, f"bad keyword argument {kw.arg!r}")
                     actual[kw.arg] = kw.value
                 if len(v.args) > len(names) or set(actual) != set(names):
-                    self.bad(s, "arguments of a mutating call do not match the spec (defaults are not translated)")
+                    self.bad(s, "arguments of a rebinding call do not match the spec (defaults are not translated)")
                 tgt = actual[mc["target"]]
                 if not isinstance(tgt, ast.Name) or tgt.id not in env.vars:
-                    self.bad(s, "the mutated argument of a mutating call must be a local name")
+                    self.bad(s, "the mutated argument of a rebinding call must be a local name")
                 vals = {p: paren(self.coerce(self.expr(actual[p], env), ty, s).code) for p, ty in mc["params"]}
-                self.idiom("mutating-call-by-spec")
+                self.idiom("rebinding-call-by-spec")
                 return self.assign_to(tgt, Val("(" + mc["code"].format(**vals) + ")", dict(mc["params"])[mc["target"]]), env, s)
             return self.simple(go_mut, rest, env, k)
         if isinstance(v, ast.Call):
@@ -1558,6 +1674,21 @@ class StatementsMixin:
             self.bad(s, f".{meth} on {cur.ty}")
 
         def go():
+            if getattr(self, "heap", None) and isinstance(target, (ast.Name, ast.Attribute)):
+                # list-as-heap-cell: r.append(e) on a reference is the in-place update of r's cell; nothing is rebound
+                saved_ = (len(self.binds), self.fresh_n)
+                try:
+                    cur_ = self.expr(target, env)
+                except Untranslatable:
+                    cur_ = None
+                if cur_ is not None and self.heap_is_ref(cur_):
+                    if meth != "append":
+                        self.bad(s, f".{meth} on a heap-list reference (only .append is offered)")
+                    a_ = self.coerce(self.expr(arg, env), self.heap["elem"], s)
+                    self.heap_op(self.heap["append"], paren(cur_.code), paren(a_.code))
+                    return [], env
+                del self.binds[saved_[0]:]
+                self.fresh_n = saved_[1]
             if isinstance(target, ast.Subscript) and isinstance(target.value, ast.Name) and not isinstance(target.slice, ast.Slice):
                 d = self.expr(target.value, env)
                 if d.ty.kind != "dict":
@@ -1709,6 +1840,8 @@ class StatementsMixin:
             self.bad(s, "chained assignment")
         def go():
             t0 = s.targets[0]
+            if getattr(self, "heap", None) and isinstance(t0, ast.Name) and t0.id in self.heap.get("locals", ()):
+                return self.assign_to(t0, self.heap_rhs(s.value, env, s), env, s)  # list-as-heap-cell
             self.hint = self.fs.get("locals", {}).get(t0.id) if isinstance(t0, ast.Name) else self.state_field_hint(t0)
             try:
                 v = self.expr(s.value, env)
@@ -1721,6 +1854,8 @@ class StatementsMixin:
         if s.value is None:
             return self.block(rest, env, k)  # a bare annotation
         def go():
+            if getattr(self, "heap", None) and isinstance(s.target, ast.Name) and s.target.id in self.heap.get("locals", ()):
+                return self.assign_to(s.target, self.heap_rhs(s.value, env, s), env, s)  # list-as-heap-cell
             self.hint = self.fs.get("locals", {}).get(s.target.id) if isinstance(s.target, ast.Name) else self.state_field_hint(s.target)
             try:
                 v = self.expr(s.value, env)
@@ -1746,13 +1881,19 @@ class StatementsMixin:
         if (isinstance(test, ast.Compare) and len(test.ops) == 1 and isinstance(test.ops[0], (ast.Is, ast.IsNot))
                 and isinstance(test.comparators[0], ast.Constant) and test.comparators[0].value is None):
             x = test.left
-            if isinstance(x, ast.Name) or (isinstance(x, ast.Attribute) and self.is_self(x.value)) or self.self_chain(x):
+            if isinstance(x, ast.Name) or (isinstance(x, ast.Attribute) and self.is_self(x.value)) or self.self_chain(x) or self.heap_attr_of_param(x):
                 if ekey(x) in env.narrow:
                     return None
                 v, binds = self.scoped(lambda: self.expr(x, env))
                 if not binds and v.ty.kind == "option":
                     return x, v, isinstance(test.ops[0], ast.Is)
         return None
+
+    def heap_attr_of_param(self, x) -> bool:
+        """list-as-heap-cell: `p.attr` with attr listed under heap_lists.attrs and p a parameter that the function never reassigns (so the narrowing cannot go stale)"""
+        return bool(getattr(self, "heap", None) and isinstance(x, ast.Attribute) and isinstance(x.value, ast.Name) and x.attr in tuple(self.heap.get("attrs", ())) + tuple(self.heap.get("narrow_attrs", ()))
+                    and x.value.id in [p[0] for p in self.fs.get("params", [])] and x.value.id not in assigned_names(self.fnode.body)
+                    and not any(isinstance(n, ast.Attribute) and isinstance(n.ctx, ast.Store) and n.attr == x.attr for n in ast.walk(self.fnode)))
 
     def self_chain(self, x) -> bool:
         """self.a.b...: an attribute chain of length >= 2 rooted at the object `self` (additive: narrowing on it)"""
@@ -1838,7 +1979,7 @@ class StatementsMixin:
             if rest:
                 self.bad(rest[0], "unreachable statement")
             return self.wrap(pre, mk(self.block(A, env_a, k), self.block(B, env_b, k)))
-        if ta or tb or contains(A + B, (ast.Return, ast.Break), into_loops=True):
+        if ta or tb or contains(A + B, (ast.Return, ast.Break), into_loops=True) or contains(A + B, (ast.Continue,), into_loops=False):
             # one branch leaves (or may leave): the continuation goes into the branches
             return self.wrap(pre, mk(self.block(A if ta else A + rest, env_a, k), self.block(B if tb else B + rest, env_b, k)))
         # join: both branches fall through
@@ -1921,6 +2062,12 @@ class StatementsMixin:
         if s.orelse:
             self.bad(s, "for ... else")
         it, pre = self.scoped(lambda: self.expr(s.iter, env))
+        if self.heap_is_ref(it):
+            # list-as-heap-cell: the loop runs over the cell's content as it is now; a body that could update a cell in place is rejected
+            if self.heap_mutates(s.body, env):
+                self.bad(s, "loop over a heap-list reference whose body may mutate a list in place")
+            it, pre2 = self.scoped(lambda: self.heap_read(it))
+            pre = pre + pre2
         if it.ty.kind == "tuple" and len(set(it.ty.args)) == 1:
             it = Val("[" + "; ".join(tuple_proj(it.code, len(it.ty.args), i) for i in range(len(it.ty.args))) + "]", List(it.ty.args[0]))
         et = self.elem_ty(it, s.iter)
@@ -1996,6 +2143,7 @@ class StatementsMixin:
                        lambda e: (f"Ok (Next {paren(cur_tuple(e))})" if ok else f"Next {paren(cur_tuple(e))}"), None)
             else:
                 kk = K(k.payload, k.wrap, lambda e: ("Ok " if ok else "") + f"({cur_tuple(e)}, false)", lambda e: ("Ok " if ok else "") + f"({cur_tuple(e)}, true)")
+            kk.cont = kk.fall  # `continue` (additive): as falling off the end of the body
             e0 = self.effects
             code = self.block(body, env_body, kk)
             return code, (self.effects != e0 or "do " in code)
@@ -2517,6 +2665,16 @@ IDIOMS["sync-skeleton"] = ("function entry kind='sync_skeleton': NOT what the fu
                            "ONE item `block` per maximal run of statements without any of these; tests and plain statements are opaque (`?`, `block`). Fail closed: a listed object used other "
                            "than as receiver of a call or as the item of a `with` (aliased, passed on, stored), a `with` on anything else, or a synchronisation operation inside a lambda / "
                            "comprehension / nested def is rejected. Says nothing about what the operations DO (Lock/Condition semantics are not modelled)")
+
+
+IDIOMS["list-as-heap-cell"] = ("function entry `heap_lists` (C10/C11; needs `stream`/`state`: the heap is part of the threaded state): the list objects behind the attributes the spec lists "
+                               "(heap_lists.attrs, e.g. population.species_representatives) and behind the locals it lists (heap_lists.locals) are CELLS of an explicit heap; a value of the "
+                               "reference type heap_lists.ref is a pointer. Reading such an attribute / assigning one reference to another local is a pointer COPY (aliasing is modelled); "
+                               "`x = []` / `x = [..]` / `x = list(e)` on a listed local ALLOCATES a fresh cell (heap_lists.alloc; list(r) of a reference r first reads r's cell: a copy); "
+                               "`r.append(e)` is the in-place update of r's cell (heap_lists.append) — so dropping a `list(...)` copy changes the generated definition; `for x in r` / a comprehension over r "
+                               "iterates over the cell's content as it is when the loop starts (heap_lists.get; a loop body that could mutate a cell is rejected). Fail closed: every other operation on a "
+                               "reference (len, subscript, ==, in, +, any other method, passing it to an unlisted callee) is rejected by its type; list(...) of a reference outside an assignment to a listed local too. "
+                               "`p.attr is None` on a listed attribute of a parameter p that is never reassigned narrows like a local (narrowing-by-match)")
 
 
 def sync_skeleton(mod, fs, fnode) -> GenFunction:
